@@ -200,6 +200,11 @@ struct UnknownLabelError : public Error {
       Error(location, (boost::format("unknown label %s") % label).str()) {}
 };
 
+struct UnalignedLabelError : public Error {
+  UnalignedLabelError(Location location, std::string label) :
+      Error(location, (boost::format("absolute reference to label %s, which is not word aligned") % label).str()) {}
+};
+
 //===---------------------------------------------------------------------===//
 // Functions for determining instruction encoding sizes.
 //===---------------------------------------------------------------------===//
@@ -789,7 +794,6 @@ class CodeGen {
           int offset = labelValue - static_cast<int>(directive->getByteOffset());
           grown |= instrLabel->setRelativeLabelOffset(offset);
         } else {
-          assert((labelValue & 0x3) == 0 && "absolute label value is not word aligned");
           grown |= instrLabel->setLabelValue(labelValue >> 2);
         }
       }
@@ -806,6 +810,16 @@ class CodeGen {
     while (grown) {
       layoutProgram();
       grown = updateLabelOperands();
+    }
+    // Absolute references use word addresses, so the label must be aligned.
+    for (auto &directive : program) {
+      if (directive->operandIsLabel()) {
+        auto instrLabel = dynamic_cast<InstrLabel*>(directive.get());
+        if (!instrLabel->isRelative() &&
+            (labelMap[instrLabel->getLabel()]->getValue() & 0x3) != 0) {
+          throw UnalignedLabelError(directive->getLocation(), instrLabel->getLabel());
+        }
+      }
     }
   }
 
